@@ -17,64 +17,72 @@ Require Import Ctpg.Valid.SpecMatch.
 Require Import Ctpg.Spec.Recovery.
 Require Import Ctpg.Proofs.DriverBasics.
 Require Import Ctpg.Proofs.RecoveryRefines.
+Require Import Ctpg.Proofs.CapFormula.
+Require Import Ctpg.Proofs.CapFormulaRec.
 From Coq Require Import Permutation.
+
+(* recovery CONTINUES NORMALLY also on the fixed-capacity stacks of cstring_buffer: for a grammar without empty rules a run that shifts the error symbol at most once is identical to the run with unbounded stacks and never throws *)
+Theorem C08_a_single_recovery_never_exhausts_the_fixed_stacks :
+  forall (V C : Type) (g : grammar) (tbl : LRGen.table) (opts : options) (buf : list nat) (lexer : bool -> spoint -> list nat -> list lex_event * option (nat * nat)) (term_f : nat -> nat -> nat -> spoint -> V) (err_f : spoint -> V) (rule_f : nat -> C -> list V -> C * V) (fuel : nat) (c : C), empty_rules g = 0 -> eof_err_not_shifted g tbl -> lexer_in_range lexer -> err_shifts V C g tbl opts buf lexer term_f err_f rule_f fuel c <= 1 -> run V C g tbl opts buf (Some (cstring_cap g (length buf))) lexer term_f err_f rule_f fuel c = run V C g tbl opts buf None lexer term_f err_f rule_f fuel c /\ fst (fst (run V C g tbl opts buf (Some (cstring_cap g (length buf))) lexer term_f err_f rule_f fuel c)) <> Throw.
+Proof. exact @cstring_capacity_suffices_with_at_most_one_recovery. Qed.
+Print Assumptions C08_a_single_recovery_never_exhausts_the_fixed_stacks.
 
 (* on a syntax error the driver reports once and then discards exactly the states above the topmost one that accepts the error symbol (none if the top does), keeping everything below *)
 Theorem C08_pop_phase :
   forall (V C : Type) (g : grammar) (tbl : LRGen.table) (opts : options) (buf : list nat) (cap : option nat) (lexer : bool -> spoint -> list nat -> list lex_event * option (nat * nat)) (term_f : nat -> nat -> nat -> spoint -> V) (err_f : spoint -> V) (rule_f : nat -> C -> list V -> C * V) (s : pstate V C) (top : nat) (cs : list nat) (s1 : pstate V C) (a : nat) (ev1 : list event) (e : entry), ps_rec s = false -> ps_cons s = false -> ps_cursors s = top :: cs -> get_current_term V C g opts buf lexer s = (s1, Some a, ev1) -> cell tbl top (term_col g a) = inl e -> e_kind e = KError -> pop_defined g tbl (ps_cursors s) = true -> steps V C g tbl opts buf cap lexer term_f err_f rule_f (S (pop_steps g tbl (ps_cursors s))) s = (fst (as_outcome V C (spec_pop_phase V C g tbl s1)), ev1 ++ snd (as_outcome V C (spec_pop_phase V C g tbl s1))) /\ ps_term s1 = Some a /\ term_or0 s1 = a.
-Proof. exact pop_phase_refines. Qed.
+Proof. exact @pop_phase_refines. Qed.
 Print Assumptions C08_pop_phase.
 
 (* discarding none if the current state already can *)
 Theorem C08_no_pop_when_top_accepts :
   forall (V C : Type) (g : grammar) (tbl : LRGen.table) (opts : options) (buf : list nat) (cap : option nat) (lexer : bool -> spoint -> list nat -> list lex_event * option (nat * nat)) (term_f : nat -> nat -> nat -> spoint -> V) (err_f : spoint -> V) (rule_f : nat -> C -> list V -> C * V) (s : pstate V C) (top : nat) (cs : list nat) (s1 : pstate V C) (a : nat) (ev1 : list event) (e : entry), ps_rec s = false -> ps_cons s = false -> ps_cursors s = top :: cs -> get_current_term V C g opts buf lexer s = (s1, Some a, ev1) -> cell tbl top (term_col g a) = inl e -> e_kind e = KError -> accepts_err g tbl top = true -> exists (s' : pstate V C) (e' : entry), step V C g tbl opts buf cap lexer term_f err_f rule_f s = (inl s', ev1 ++ [EvSyntaxError (ps_sp s1) a; EvEnterRecovery (ps_sp s1)]) /\ ps_cursors s' = ps_cursors s /\ ps_values s' = ps_values s /\ ps_ctx s' = ps_ctx s /\ ps_rec s' = true /\ ps_cons s' = false /\ cell tbl top (err_col g) = inl e' /\ e_kind e' <> KError /\ step V C g tbl opts buf cap lexer term_f err_f rule_f s' = plain_action V C g tbl buf cap term_f err_f rule_f s' (err_idx g) e'.
-Proof. exact C08_no_pop_when_top_accepts. Qed.
+Proof. exact @C08_no_pop_when_top_accepts. Qed.
 Print Assumptions C08_no_pop_when_top_accepts.
 
 (* values of states that are not discarded are kept *)
 Theorem C08_keeps_lower_values :
   forall (V C : Type) (g : grammar) (tbl : LRGen.table) (opts : options) (buf : list nat) (cap : option nat) (lexer : bool -> spoint -> list nat -> list lex_event * option (nat * nat)) (term_f : nat -> nat -> nat -> spoint -> V) (err_f : spoint -> V) (rule_f : nat -> C -> list V -> C * V) (s : pstate V C) (top : nat) (cs : list nat) (s1 : pstate V C) (a : nat) (ev1 : list event) (e : entry) (k : nat), ps_rec s = false -> ps_cons s = false -> ps_cursors s = top :: cs -> get_current_term V C g opts buf lexer s = (s1, Some a, ev1) -> cell tbl top (term_col g a) = inl e -> e_kind e = KError -> pop_defined g tbl (ps_cursors s) = true -> drop_count g tbl (ps_cursors s) = Some k -> exists (s' : pstate V C) (ev : list event), steps V C g tbl opts buf cap lexer term_f err_f rule_f (k + 1) s = (inl s', ev) /\ ps_values s' = skipn k (ps_values s) /\ ps_cursors s' = skipn k (ps_cursors s) /\ ps_ctx s' = ps_ctx s /\ ps_rec s' = true /\ (length (ps_values s) + 1 = length (ps_cursors s) -> length (ps_values s') + 1 = length (ps_cursors s')).
-Proof. exact C08_keeps_lower_values. Qed.
+Proof. exact @C08_keeps_lower_values. Qed.
 Print Assumptions C08_keeps_lower_values.
 
 (* every discarded state rejects the error symbol *)
 Theorem C08_pops_only_rejecting_states :
   forall (g : grammar) (tbl : LRGen.table) (cursors : list nat) (k : nat), drop_count g tbl cursors = Some k -> Forall (fun st : nat => accepts_err g tbl st = false) (firstn k cursors) /\ (pop_defined g tbl cursors = true -> Forall (fun st : nat => rejects_err g tbl st = true) (firstn k cursors)) /\ (exists st : nat, nth_error cursors k = Some st /\ hd_error (skipn k cursors) = Some st /\ accepts_err g tbl st = true).
-Proof. exact C08_pops_only_rejecting_states. Qed.
+Proof. exact @C08_pops_only_rejecting_states. Qed.
 Print Assumptions C08_pops_only_rejecting_states.
 
 (* in recovery mode an accepting top state performs exactly the table's action for the error symbol *)
 Theorem C08_acting_on_the_error_symbol :
   forall (V C : Type) (g : grammar) (tbl : LRGen.table) (opts : options) (buf : list nat) (cap : option nat) (lexer : bool -> spoint -> list nat -> list lex_event * option (nat * nat)) (term_f : nat -> nat -> nat -> spoint -> V) (err_f : spoint -> V) (rule_f : nat -> C -> list V -> C * V) (s : pstate V C) (st : nat) (cs : list nat) (e : entry), ps_rec s = true -> ps_cons s = false -> ps_cursors s = st :: cs -> cell tbl st (err_col g) = inl e -> e_kind e <> KError -> step V C g tbl opts buf cap lexer term_f err_f rule_f s = plain_action V C g tbl buf cap term_f err_f rule_f s (err_idx g) e.
-Proof. exact recovering_step. Qed.
+Proof. exact @recovering_step. Qed.
 Print Assumptions C08_acting_on_the_error_symbol.
 
 (* after the shift, terms are discarded one at a time until the first one the parser can act on *)
 Theorem C08_consume_phase :
   forall (V C : Type) (g : grammar) (tbl : LRGen.table) (opts : options) (buf : list nat) (cap : option nat) (lexer : bool -> spoint -> list nat -> list lex_event * option (nat * nat)) (term_f : nat -> nat -> nat -> spoint -> V) (err_f : spoint -> V) (rule_f : nat -> C -> list V -> C * V) (n : nat) (s : pstate V C) (top : nat) (cs : list nat), ps_rec s = false -> ps_cons s = true -> ps_cursors s = top :: cs -> let (c, ev) := spec_consume V C g tbl opts buf lexer n s in match c with | CoResume s' => resumes V C g tbl opts buf cap lexer term_f err_f rule_f n s top s' ev | CoFail s' => exists m : nat, 1 <= m <= n /\ steps V C g tbl opts buf cap lexer term_f err_f rule_f m s = (inr (Reject, s'), ev) | CoNoCell s' => exists (m : nat) (c0 : crash), 1 <= m <= n /\ steps V C g tbl opts buf cap lexer term_f err_f rule_f m s = (inr (Crash c0, s'), ev) /\ (c0 = CrTableRow \/ c0 = CrTableCol) | CoMore s' => steps V C g tbl opts buf cap lexer term_f err_f rule_f n s = (inl s', ev) /\ length (discarded_terms ev) = n /\ ps_rec s' = false /\ ps_cons s' = true /\ ps_cursors s' = ps_cursors s /\ ps_values s' = ps_values s /\ ps_ctx s' = ps_ctx s end.
-Proof. exact consume_phase_refines. Qed.
+Proof. exact @consume_phase_refines. Qed.
 Print Assumptions C08_consume_phase.
 
 (* recovery fails exactly when the stack is exhausted, the input ends while discarding, or the lexer fails *)
 Theorem C08_fails_iff :
   forall (V C : Type) (g : grammar) (tbl : LRGen.table) (opts : options) (buf : list nat) (cap : option nat) (lexer : bool -> spoint -> list nat -> list lex_event * option (nat * nat)) (term_f : nat -> nat -> nat -> spoint -> V) (err_f : spoint -> V) (rule_f : nat -> C -> list V -> C * V) (fuel : nat) (c : C) (s' : pstate V C) (out : list event) (vis : list (pstate V C)), run_gh V C g tbl opts buf cap lexer term_f err_f rule_f fuel (init c) [] [] = (Reject, s', out, vis) -> exists (vis0 : list (pstate V C)) (sl : pstate V C), vis = vis0 ++ [sl] /\ modes_ok V C sl /\ err_track false (all_events V C g tbl opts buf cap lexer term_f err_f rule_f vis0) = Some (ps_rec sl) /\ (stack_exhausted V C g tbl sl /\ ps_cursors s' = [] /\ (exists ev0 : list event, all_events V C g tbl opts buf cap lexer term_f err_f rule_f vis = ev0 ++ [EvCouldNotRecover (ps_sp sl)]) \/ eof_while_discarding V C g tbl opts buf lexer sl /\ (exists ev1 : list event, get_current_term V C g opts buf lexer sl = (s', Some (eof_idx g), ev1)) \/ lexical_failure V C g opts buf lexer sl /\ ps_rec sl = false /\ (exists (ev0 : list event) (p : spoint) (ch : nat), all_events V C g tbl opts buf cap lexer term_f err_f rule_f vis = ev0 ++ [EvUnexpectedChar p ch])).
-Proof. exact C08_fails_iff. Qed.
+Proof. exact @C08_fails_iff. Qed.
 Print Assumptions C08_fails_iff.
 
 (* each error is reported once: between two reports the error symbol was shifted *)
 Theorem C08_one_report_per_error :
   forall (V C : Type) (g : grammar) (tbl : LRGen.table) (opts : options) (buf : list nat) (cap : option nat) (lexer : bool -> spoint -> list nat -> list lex_event * option (nat * nat)) (term_f : nat -> nat -> nat -> spoint -> V) (err_f : spoint -> V) (rule_f : nat -> C -> list V -> C * V) (fuel : nat) (c : C) (r : result V) (s' : pstate V C) (out : list event) (vis : list (pstate V C)) (e1 : list event) (p : spoint) (a : nat) (mid : list event) (p' : spoint) (a' : nat) (e2 : list event), run_gh V C g tbl opts buf cap lexer term_f err_f rule_f fuel (init c) [] [] = (r, s', out, vis) -> all_events V C g tbl opts buf cap lexer term_f err_f rule_f vis = e1 ++ [EvSyntaxError p a] ++ mid ++ [EvSyntaxError p' a'] ++ e2 -> exists (q : spoint) (n : nat), In (EvShiftErr q n) mid.
-Proof. exact C08_one_report_per_error. Qed.
+Proof. exact @C08_one_report_per_error. Qed.
 Print Assumptions C08_one_report_per_error.
 
 (* whole runs: whatever the declarative specification predicts, the driver does *)
 Theorem C08_whole_run_refines_spec :
   forall (V C : Type) (g : grammar) (tbl : LRGen.table) (opts : options) (buf : list nat) (cap : option nat) (lexer : bool -> spoint -> list nat -> list lex_event * option (nat * nat)) (term_f : nat -> nat -> nat -> spoint -> V) (err_f : spoint -> V) (rule_f : nat -> C -> list V -> C * V) (n : nat) (c : C) (r : result V) (s' : pstate V C) (ev : list event), spec_run V C g tbl opts buf cap lexer term_f err_f rule_f n (init c) = Some (r, s', ev) -> r <> OutOfFuel -> exists m : nat, forall fuel : nat, m <= fuel -> run V C g tbl opts buf cap lexer term_f err_f rule_f fuel c = (r, s', filter (visible opts) ev).
-Proof. exact C08_refines_run. Qed.
+Proof. exact @C08_refines_run. Qed.
 Print Assumptions C08_whole_run_refines_spec.
 
 (* and whatever the driver does, the specification predicts *)
 Theorem C08_whole_run_predicted_by_spec :
   forall (V C : Type) (g : grammar) (tbl : LRGen.table) (opts : options) (buf : list nat) (cap : option nat) (lexer : bool -> spoint -> list nat -> list lex_event * option (nat * nat)) (term_f : nat -> nat -> nat -> spoint -> V) (err_f : spoint -> V) (rule_f : nat -> C -> list V -> C * V) (fuel : nat) (c : C) (r : result V) (s' : pstate V C) (out : list event), run V C g tbl opts buf cap lexer term_f err_f rule_f fuel c = (r, s', out) -> r <> OutOfFuel -> spec_run V C g tbl opts buf cap lexer term_f err_f rule_f fuel (init c) = None \/ (exists ev : list event, spec_run V C g tbl opts buf cap lexer term_f err_f rule_f fuel (init c) = Some (r, s', ev) /\ out = filter (visible opts) ev).
-Proof. exact C08_run_predicted. Qed.
+Proof. exact @C08_run_predicted. Qed.
 Print Assumptions C08_whole_run_predicted_by_spec.
